@@ -1,5 +1,7 @@
 """C03 - Generated dependency graph equals the graph the build script describes."""
-from .. import core
+import os
+
+from .. import core, proj
 from ..core import CaseResult
 from ..gen import dag, dagrun
 
@@ -30,6 +32,8 @@ def floors(tier):
 
 
 def cases(tier, seed):
+    for backend in ('make', 'ninja'):
+        yield {'kind': 'jbos', 'backend': backend}
     rng = core.rng_for(seed, 'c03')
     n = 24 if tier == 'quick' else 400
     for i in range(n):
@@ -71,7 +75,70 @@ def _cmp(res, p, what, got_sids, expected, extra, witness_base, optional_extra=(
     return ok
 
 
+JBOS_BFG = (
+    "a = build_step('a.txt', cmd=['vrec', '--id=1', '--touch', build_step.output, '--end'])\n"
+    "b = build_step('b.txt', cmd=['vrec', '--id=2', '--in=' + a, '--touch', build_step.output, "
+    "'--end'])\n"
+    "c = build_step('c.txt', cmd=['vrec', '--id=3', '--data=' + generic_file('d.dat'), '--touch', "
+    "build_step.output, '--end'])\n"
+    "d = command('d', cmd=['vrec', '--id=4', '--in=' + a])\n"
+    "default(b, c)\n")
+
+
+def run_jbos(case):
+    """A file object that is PART of a command word ('--in=' + file): the documentation makes
+    every file object specified in a command a dependency of the step."""
+    res = CaseResult()
+    backend = case['backend']
+    root = core.mkscratch('c03j')
+    try:
+        src, bld, log = (os.path.join(root, x) for x in ('src', 'bld', 'log'))
+        proj.write_tree(src, {'build.bfg': JBOS_BFG, 'd.dat': 'data\n'})
+        env = core.base_env(proj.stub_toolchain_env(log, backend))
+        rc, out = proj.configure(src, bld, backend, env=env)
+        res.evaluations = 3
+        res.key(['jbos', backend], True)
+        if rc != 0:
+            res.violate((backend, 'configure-failed'), {'backend': backend, 'output': out[-800:]})
+            return res
+
+        def build(targets=()):
+            proj.clear_log(log)
+            proj.settle()
+            rc, out = proj.build(bld, backend, list(targets), env=env,
+                                 extra=['-k'] if backend == 'make' else ['-k', '0'])
+            ids = sorted(a[5:] for r in proj.read_log(log) for a in r['argv'][1:2]
+                         if a.startswith('--id='))
+            return rc, out, ids
+
+        def bad(kind, **kw):
+            res.violate((backend, 'file-inside-a-command-word', 'not-a-dependency', kind),
+                        dict(kw, backend=backend, script=JBOS_BFG))
+        rc, out, ids = build()
+        res.ev('jbos:builds')
+        if '1' not in ids:
+            bad('generated-file/not-built-first', ran=ids, rc=rc)
+            build(['a.txt'])
+            build()
+        proj.bump(os.path.join(bld, 'a.txt'), bld, src)
+        rc, out, ids = build()
+        res.ev('jbos:builds')
+        if '2' not in ids:
+            bad('generated-file/change-not-noticed', ran=ids)
+        proj.bump(os.path.join(src, 'd.dat'), bld, src)
+        rc, out, ids = build()
+        res.ev('jbos:builds')
+        if '3' not in ids:
+            bad('source-file/change-not-noticed', ran=ids)
+        res.sample = {'backend': backend, 'build.bfg': JBOS_BFG}
+        return res
+    finally:
+        core.rmtree(root)
+
+
 def run_case(case):
+    if case.get('kind') == 'jbos':
+        return run_jbos(case)
     res = CaseResult()
     spec, backend = case['spec'], case['backend']
     p = dagrun.Project(spec, backend, stub_install=True)
